@@ -19,7 +19,7 @@ pub mod vp_auth {
     pub broadcast axiom fn ax_str_of(k: Seq<char>)
         ensures #[trigger] str_of(k)@ == k;
 
-    pub broadcast group group_vp_auth { ax_str_ext_view, ax_str_of, ax_owned_user, ax_int_ext }
+    pub broadcast group group_vp_auth { ax_str_ext_view, ax_str_of, ax_owned_user, ax_int_ext, ax_owned_of, ax_owned_of_view }
 
     /// stands for `format!(..)` error messages (their text is not part of any contract)
     #[verifier::external_body]
@@ -75,6 +75,12 @@ pub mod vp_auth {
         #[verifier::external_body]
         fn eq(&self, other: &UserId) -> (r: bool) { unimplemented!() }
     }
+    /// the owned user id spelled `s` (TRUSTED: an OwnedUserId is determined by its spelling)
+    pub uninterp spec fn owned_of(s: Seq<char>) -> OwnedUserId;
+    pub broadcast axiom fn ax_owned_of(o: OwnedUserId)
+        ensures #[trigger] owned_of(o.view()) == o;
+    pub broadcast axiom fn ax_owned_of_view(s: Seq<char>)
+        ensures #[trigger] owned_of(s).view() == s;
     pub broadcast axiom fn ax_owned_user(o: &OwnedUserId)
         ensures #[trigger] o.as_user().view() == o.view();
     impl Deref for OwnedUserId {
@@ -167,11 +173,15 @@ pub mod vp_auth {
     #[verifier::accept_recursive_types(K)]
     #[verifier::accept_recursive_types(V)]
     pub struct BTreeMap<K, V> { _p: Vec<(K, V)> }
+    /// `Q` may be used to look up a key of type `K` (std: `K: Borrow<Q>`); `key` is the key it denotes
+    pub trait KeyOf<K> { spec fn key(&self) -> K; }
+    impl<K> KeyOf<K> for K { open spec fn key(&self) -> K { *self } }
+    impl KeyOf<OwnedUserId> for UserId { open spec fn key(&self) -> OwnedUserId { owned_of(self.view()) } }
     impl<K, V> BTreeMap<K, V> {
         pub uninterp spec fn view(&self) -> Map<K, V>;
         #[verifier::external_body]
-        pub fn get(&self, k: &K) -> (r: Option<&V>)
-            ensures r.is_some() == self.view().contains_key(*k), r.is_some() ==> *r.unwrap() == self.view()[*k],
+        pub fn get<Q: KeyOf<K>>(&self, k: &Q) -> (r: Option<&V>)
+            ensures r.is_some() == self.view().contains_key(k.key()), r.is_some() ==> *r.unwrap() == self.view()[k.key()],
         { unimplemented!() }
     }
     pub open spec fn omap<K, V>(m: Option<&BTreeMap<K, V>>) -> Map<K, V> {
@@ -188,25 +198,31 @@ pub mod vp_auth {
 
     // ---- enums of ruma-events (shape assumption: the variants the rules distinguish) ----------
     pub enum MembershipState { Ban, Invite, Join, Knock, Leave, _Custom }
+    impl vstd::std_specs::cmp::PartialEqSpecImpl for MembershipState {
+        open spec fn obeys_eq_spec() -> bool { true }
+        open spec fn eq_spec(&self, other: &MembershipState) -> bool { *self == *other }
+    }
     impl PartialEq for MembershipState {
         #[verifier::external_body]
-        fn eq(&self, other: &Self) -> (r: bool) ensures r == (*self == *other) { unimplemented!() }
-        #[verifier::external_body]
-        fn ne(&self, other: &Self) -> (r: bool) ensures r == (*self != *other) { unimplemented!() }
+        fn eq(&self, other: &Self) -> (r: bool) { unimplemented!() }
     }
     pub enum StateEventType { RoomCreate, RoomMember, RoomPowerLevels, RoomJoinRules, RoomThirdPartyInvite, _Other(Seq<char>) }
+    impl vstd::std_specs::cmp::PartialEqSpecImpl for StateEventType {
+        open spec fn obeys_eq_spec() -> bool { true }
+        open spec fn eq_spec(&self, other: &StateEventType) -> bool { *self == *other }
+    }
     impl PartialEq for StateEventType {
         #[verifier::external_body]
-        fn eq(&self, other: &Self) -> (r: bool) ensures r == (*self == *other) { unimplemented!() }
-        #[verifier::external_body]
-        fn ne(&self, other: &Self) -> (r: bool) ensures r == (*self != *other) { unimplemented!() }
+        fn eq(&self, other: &Self) -> (r: bool) { unimplemented!() }
     }
     pub enum TimelineEventType { RoomCreate, RoomMember, RoomPowerLevels, RoomJoinRules, RoomThirdPartyInvite, RoomAliases, RoomRedaction, _Other(Seq<char>) }
+    impl vstd::std_specs::cmp::PartialEqSpecImpl for TimelineEventType {
+        open spec fn obeys_eq_spec() -> bool { true }
+        open spec fn eq_spec(&self, other: &TimelineEventType) -> bool { *self == *other }
+    }
     impl PartialEq for TimelineEventType {
         #[verifier::external_body]
-        fn eq(&self, other: &Self) -> (r: bool) ensures r == (*self == *other) { unimplemented!() }
-        #[verifier::external_body]
-        fn ne(&self, other: &Self) -> (r: bool) ensures r == (*self != *other) { unimplemented!() }
+        fn eq(&self, other: &Self) -> (r: bool) { unimplemented!() }
     }
 
     // ---- the Event trait surface used by the authorization rules --------------------------------
